@@ -679,6 +679,11 @@ def _late_edits(h, seed):
 
 def _build0(spec):
     k = spec["kind"]
+    if k == "prog":
+        # the module of a generated well-formed builder program (harness/gen_prog.py, family "module")
+        from props import C02
+
+        return C02._prog_hugr(spec["prog"])
     if k == "c09":
         from props.C09 import build_module
 
@@ -1351,6 +1356,8 @@ def cases(rng, tier):
 
     for _ in range(n09):
         yield late({"kind": "c09", "seed": rng.randrange(1 << 30), "size": rng.randint(0, ms)})
+    for _ in range(max(40, n09 // 2)):
+        yield late({"kind": "prog", "prog": [rng.randrange(2**31), rng.randint(3, 24), "module"]})
     for _ in range(nown):
         yield late(_own_spec(rng, ms))
 
